@@ -4,12 +4,19 @@
 package mitm_test
 
 import (
+	"crypto/rand"
+	"crypto/rsa"
 	"crypto/tls"
 	"crypto/x509"
+	"crypto/x509/pkix"
+	"encoding/base64"
+	"encoding/pem"
 	"fmt"
 	"github.com/saucelabs/forwarder"
+	"math/big"
 	"net"
 	"strings"
+	"sync"
 	"testing"
 	"time"
 
@@ -50,6 +57,26 @@ func proxyScenario(x *explore.X) {
 		mc := forwarder.DefaultMITMConfig()
 		mc.Validity = 10 * time.Minute
 		opts.MITMConfig = mc
+	}
+	// (round 9 rule: every option through the code's own plumbing) "chains to the CONFIGURED CA": the CA may be the one
+	// the proxy generates for itself, or one the operator configured (--mitm-cacert-file / --mitm-cakey-file, here as
+	// data: URIs; an ECDSA P-256 CA with a SEC 1 key, an RSA-2048 CA with a PKCS #8 key)
+	var configuredCA *x509.Certificate
+	if k := x.Choose("mitm-ca", 3); k > 0 {
+		var certPEM, keyPEM []byte
+		if k == 1 {
+			p := world.NewPKI("configured MITM CA (ECDSA)")
+			der, _ := x509.MarshalECPrivateKey(p.CAKey)
+			configuredCA, certPEM, keyPEM = p.CA, p.CAPEM, pem.EncodeToMemory(&pem.Block{Type: "EC PRIVATE KEY", Bytes: der})
+		} else {
+			r := rsaCA()
+			configuredCA, certPEM, keyPEM = r.cert, r.certPEM, r.keyPEM
+		}
+		if opts.MITMConfig == nil {
+			opts.MITMConfig = forwarder.DefaultMITMConfig()
+		}
+		opts.MITMConfig.CACertFile = "data:base64," + base64.StdEncoding.EncodeToString(certPEM)
+		opts.MITMConfig.CAKeyFile = "data:base64," + base64.StdEncoding.EncodeToString(keyPEM)
 	}
 	switch domains {
 	case 1:
@@ -140,7 +167,12 @@ func proxyScenario(x *explore.X) {
 	// the certificate the client received must be valid for the name it asked for, chain to the CA, be in its validity period
 	pcs := tc.State().PeerCertificates
 	roots := x509.NewCertPool()
-	roots.AddCert(w.Proxy.MITMCACert())
+	if configuredCA != nil {
+		roots.AddCert(configuredCA) // (what the operator configured, not what the proxy says its CA is)
+		what += ", CA configured by the operator (" + configuredCA.Subject.CommonName + ")"
+	} else {
+		roots.AddCert(w.Proxy.MITMCACert())
+	}
 	inter := x509.NewCertPool()
 	for _, c := range pcs[1:] {
 		inter.AddCert(c)
@@ -404,3 +436,26 @@ func TestC07(t *testing.T) {
 		Run: func(x *explore.X) { world.Run(t, x, func() { sessionsScenario(x, 4) }) }})
 	s.Main()
 }
+
+type rsaAuthority struct {
+	cert            *x509.Certificate
+	certPEM, keyPEM []byte
+}
+
+// rsaCA: one RSA-2048 CA per process (key generation is slow), valid on the virtual clock and on the real one.
+var rsaCA = sync.OnceValue(func() rsaAuthority {
+	key, err := rsa.GenerateKey(rand.Reader, 2048)
+	if err != nil {
+		panic(err)
+	}
+	tmpl := &x509.Certificate{SerialNumber: big.NewInt(77), Subject: pkix.Name{CommonName: "configured MITM CA (RSA)"},
+		NotBefore: time.Date(1990, 1, 1, 0, 0, 0, 0, time.UTC), NotAfter: time.Date(2100, 1, 1, 0, 0, 0, 0, time.UTC),
+		KeyUsage: x509.KeyUsageCertSign | x509.KeyUsageDigitalSignature, BasicConstraintsValid: true, IsCA: true}
+	der, err := x509.CreateCertificate(rand.Reader, tmpl, tmpl, &key.PublicKey, key)
+	if err != nil {
+		panic(err)
+	}
+	c, _ := x509.ParseCertificate(der)
+	k8, _ := x509.MarshalPKCS8PrivateKey(key)
+	return rsaAuthority{c, pem.EncodeToMemory(&pem.Block{Type: "CERTIFICATE", Bytes: der}), pem.EncodeToMemory(&pem.Block{Type: "PRIVATE KEY", Bytes: k8})}
+})
